@@ -22,7 +22,9 @@ class Result(object):
 
 
 def _reduce(e):
-    for f in (lambda x: sp.simplify(x),
+    for f in (lambda x: sp.simplify(sp.powdenest(x, force=True)),
+              lambda x: sp.simplify(sp.powsimp(sp.powdenest(x, force=True), force=True)),
+              lambda x: sp.simplify(x),
               lambda x: sp.simplify(sp.expand_log(sp.powsimp(sp.expand_power_base(x, force=True), force=True), force=True)),
               lambda x: sp.simplify(sp.powdenest(sp.expand(x), force=True)),
               lambda x: sp.simplify(sp.factor(sp.together(x)))):
@@ -79,6 +81,12 @@ def _numeric(res, lhs, domain, samples, seed, accept=None, seeds=()):
                         lo, hi = domain[k]
                         q[k] = sp.Float(rnd.uniform(lo, hi), 40)
                 pts.append(q)
+    # corners of the domain box (defects often live in an extreme parameter region)
+    keys = list(domain)
+    if len(keys) <= 4:
+        import itertools
+        for combo in itertools.product(*[(domain[k][0], domain[k][1]) for k in keys]):
+            pts.append({k: sp.Float(c, 40) for k, c in zip(keys, combo)})
     tries = 0
     n0 = len(pts)
     while len(pts) < samples + n0 and tries < samples * 6:
